@@ -374,7 +374,12 @@ func c07Run(ctx *run.Ctx, id run.CaseID) {
 	case "float-offset":
 		sD := floatPaths(r, p, 1+r.Intn(2), 6)
 		span := 1000 / c.scale
-		delta := gen.PickOf(r, 0.3, 1, 2.5, 7.25, 30) / c.scale * gen.PickOf(r, 1.0, -1)
+		delta := gen.PickOf(r, 0, 0.2, 0.3, 0.49, 0.5, 1, 2.5, 7.25, 30) / c.scale * gen.PickOf(r, 1.0, -1)
+		if r.Chance(0.3) { // repeated points and a repeated closing point, off the 10^-p grid
+			for i := range sD {
+				sD[i] = append(sD[i], sD[i][len(sD[i])-1], sD[i][0])
+			}
+		}
 		_ = span
 		jt := clip.JoinType(r.Intn(4))
 		et := clip.EndType(r.Intn(5))
